@@ -142,18 +142,24 @@ func run(raw json.RawMessage) (common.Case, error) {
 			}
 			frs = append(frs, x)
 		}
+		// canonical order: labels, then the chunk lists lexicographically (as Model/C08.v frame_le)
 		sort.SliceStable(frs, func(i, j int) bool {
 			if d := labels.Compare(frs[i].l, frs[j].l); d != 0 {
 				return d < 0
 			}
-			var a, b int64
-			if len(frs[i].cs) > 0 {
-				a = frs[i].cs[0].Min
+			a, b := frs[i].cs, frs[j].cs
+			for k := 0; k < len(a) && k < len(b); k++ {
+				if a[k] != b[k] {
+					if a[k].Min != b[k].Min {
+						return a[k].Min < b[k].Min
+					}
+					if a[k].Max != b[k].Max {
+						return a[k].Max < b[k].Max
+					}
+					return a[k].Size < b[k].Size
+				}
 			}
-			if len(frs[j].cs) > 0 {
-				b = frs[j].cs[0].Min
-			}
-			return a < b
+			return len(a) < len(b)
 		})
 		var fs []string
 		for _, x := range frs {
@@ -305,6 +311,6 @@ func gen(r *rand.Rand, tier string, n int) []any {
 }
 
 func main() {
-	common.Main(common.Prop{ID: "C08", Facts: facts, Gen: gen, Run: run, QuickN: 600, ThoroughN: 10000,
+	common.Main(common.Prop{ID: "C08", Facts: facts, Gen: gen, Run: run, QuickN: 600, ThoroughN: 5000,
 		Preamble: "Open Scope Z_scope.\n"})
 }
